@@ -375,6 +375,27 @@ theorem spec_frame_loop_adds_no_c14_on_model (cfg : Cfg) (ok : CfgOK cfg) (hfuel
     (hn : Spec.NoErr "C14" a) : Spec.NoErr "C14" (Spec.roundBody.go cfg a reads (Spec.splitRd E).2 fuel) :=
   readAll_go_c14 ok hfuel hperm hmt reads a s sQ E fuel inv hwf hlen q hQ he hn
 
+/-- **Who is owed a notice in a round that accepts and reads nothing** (observed behaviour, not a finding; `defect_2` of
+the r3-sim report was the Spec clause judging this by the intersection of the two polls).  Log lines of level INFO are
+forwarded; connection 1 listens to them, connection 2 to CLIENT_CLOSED, logger 3 to FAILED_MESSAGE.  The last round accepts
+a connection and reads nothing.  The INFO line of `accept` goes to connection 1, whose socket is broken: it is dropped, and
+the CLIENT_CLOSED frame about it IS handed to connection 2 — writable at the previous poll, which is what the accept branch
+goes by — so no FAILED_MESSAGE is due.  The Spec counts as surely not ready only a subscriber that neither poll reported
+(`Spec.checkDeparturesAny`), and has nothing to object to. -/
+def exOwed : List Round :=
+  [{ accept := true }, { accept := true }, { accept := true },
+   { reads := [{ uid := 3, h := { k := 1, mtype := 4, nbytes := 44 }, avail := 44,
+                 pay := [1, 0, 0, 0, 0, 0, 13, 0, 7, 0, 0, 0] }], writable := [1, 2, 3] },
+   { reads := [{ uid := 1, h := { k := 2, mtype := 15, nbytes := 4 }, avail := 4, pay := [44, 0, 0, 0] }], writable := [1, 2, 3] },
+   { reads := [{ uid := 2, h := { k := 3, mtype := 15, nbytes := 4 }, avail := 4, pay := [33, 0, 0, 0] }], writable := [1, 2, 3] },
+   { reads := [{ uid := 3, h := { k := 4, mtype := 15, nbytes := 4 }, avail := 4, pay := [8, 0, 0, 0] }], writable := [1, 2, 3] },
+   { accept := true, failSet := [(1, some .hdr)], writable := [1, 2, 3, 4] }]
+example : ((modelObs { logLevel := 20 } exOwed).getLast?.map (fun l => l.map (fun e => match e with
+      | .send u _ f => (u, f.mtype) | .close u => (u, -1) | .wfail u => (u, -2) | _ => (0, 0)))) =
+    some [(1, -2), (1, -1), (2, 33)] := by decide +kernel
+example : (Spec.runSpec { logLevel := 20 } exOwed (Pyrtma.Drv.Manager.modelRun { logLevel := 20 } exOwed).1 none).errs = [] := by
+  decide +kernel
+
 /-- **PARTIAL — the model meets the Spec for C14, for configurations that do not forward INFO log lines** (`20 <
 cfg.logLevel`; the default level is 100).  Run the model on any well-formed history, hand the Spec the history and the events
 the model wrote, round by round: the Spec's verdict contains no C14 entry.  The hypothesis on the log level is there for
